@@ -200,7 +200,7 @@ func (r *returnedBytes) add(c *mon.Ctx, got []byte, what, sig string, o *model.O
 // ---- C09 ----------------------------------------------------------------------------
 
 func runC09(c *mon.Ctx) {
-	c.Rule("(a) valid claims-sets of both profiles, of two registered extension profiles and of a registered extension that brings its own software-component type (stock component + one field, no hand-written codecs; built with NewClaims + setters, the field must survive the round trip) and of registered extensions with unusual struct layouts (P2Claims reached through an embedded struct of unexported type; a mixin struct embedded before P2Claims) (all optional-claim subsets, hash sizes 32/48/64, 1-4 components, flag or list, with/without explicit P1 profile), built directly / through setters / by decoding: encode -> decode must give the same dynamic type and identical results for Validate and every getter, and encoding again must give identical bytes; returned encodings are kept and re-checked / re-decoded after six further encodes; (b) decodable-but-invalid and open-encoding tokens from the C04 generator, and tokens of the registered extension profile with the profile key repeated under another registered name, mandatory claims set to null, wire edits and extension-claim variants: decode -> encode either fails or yields bytes that decode to the same observation. distinct_nontrivial = distinct (profile, route, optional-subset, nonce size, component count, value-class) signatures")
+	c.Rule("(a) valid claims-sets of both profiles, of two registered extension profiles and of a registered extension that brings its own software-component type (stock component + one field, no hand-written codecs; built with NewClaims + setters, the field must survive the round trip) and of registered extensions with unusual struct layouts (P2Claims reached through an embedded struct of unexported type; a mixin struct embedded before P2Claims; a WIDE extension with twenty optional claims, 17..30 map entries) (all optional-claim subsets, hash sizes 32/48/64, 1-4 components, flag or list, with/without explicit P1 profile), built directly / through setters / by decoding: encode -> decode must give the same dynamic type and identical results for Validate and every getter, and encoding again must give identical bytes; returned encodings are kept and re-checked / re-decoded after six further encodes; (b) decodable-but-invalid and open-encoding tokens from the C04 generator, and tokens of the registered extension profile with the profile key repeated under another registered name, mandatory claims set to null, wire edits and extension-claim variants: decode -> encode either fails or yields bytes that decode to the same observation. distinct_nontrivial = distinct (profile, route, optional-subset, nonce size, component count, value-class) signatures")
 	if err := extprof.Register(extprof.ExtP2Name, extprof.ExtP1Name); err != nil {
 		c.Violation("harness/register", err.Error(), nil)
 		return
@@ -785,7 +785,7 @@ func jsonProblems(a *model.Claims, doc []byte, extra map[string]bool) []string {
 }
 
 func runC12(c *mon.Ctx) {
-	c.Rule("valid claims-sets of both profiles, a registered profile-2 extension (its integer claim over the whole int64 range) and a registered extension that brings its own software-component type (stock component + one field, codecs left to the JSON library; the field must survive the round trip) and of registered extensions with unusual struct layouts (P2Claims reached through an embedded struct of unexported type; a mixin struct embedded before P2Claims) ; sets with 15..2500 (thorough: ..20000) software components, i.e. JSON documents up to several MB (text claims drawn from non-ASCII / control / quote / HTML / U+2028 strings, negative client ids, P1 with and without explicit profile claim), built directly / by setters / by decoding: (1) EncodeClaimsToJSON -> each of the four dispatching JSON decoders in turn (DecodeClaimsFromJSON, DecodeAndValidateClaimsFromJSON and the deprecated DecodeUnvalidatedJSONClaims / DecodeJSONClaims) gives identical Validate + getter results and type; (2) CBOR -> claims -> JSON -> claims -> CBOR reproduces the CBOR bytes; (3) every returned JSON document is also kept by the monitor and re-checked / re-decoded after six further encodes (a caller encodes several tokens before sending them); (4) the JSON document, parsed generically, has exactly the documented member names of the claims that are set, standard base64 for byte strings, no member for an absent optional claim (incl. null), no duplicate members; also through Evidence.MarshalJSON - on one Evidence: encode, edit the attached claims in place, encode (must show the edit), edit back, encode (must equal the first). distinct_nontrivial = distinct (profile, route, optional-subset, nonce size, component count, text-class) signatures")
+	c.Rule("valid claims-sets of both profiles, a registered profile-2 extension (its integer claim over the whole int64 range) and a registered extension that brings its own software-component type (stock component + one field, codecs left to the JSON library; the field must survive the round trip) and of registered extensions with unusual struct layouts (P2Claims reached through an embedded struct of unexported type; a mixin struct embedded before P2Claims; a WIDE extension with twenty optional claims, 17..30 map entries) ; sets with 15..2500 (thorough: ..20000) software components, i.e. JSON documents up to several MB (text claims drawn from non-ASCII / control / quote / HTML / U+2028 strings, negative client ids, P1 with and without explicit profile claim), built directly / by setters / by decoding: (1) EncodeClaimsToJSON -> each of the four dispatching JSON decoders in turn (DecodeClaimsFromJSON, DecodeAndValidateClaimsFromJSON and the deprecated DecodeUnvalidatedJSONClaims / DecodeJSONClaims) gives identical Validate + getter results and type; (2) CBOR -> claims -> JSON -> claims -> CBOR reproduces the CBOR bytes; (3) every returned JSON document is also kept by the monitor and re-checked / re-decoded after six further encodes (a caller encodes several tokens before sending them); (4) the JSON document, parsed generically, has exactly the documented member names of the claims that are set, standard base64 for byte strings, no member for an absent optional claim (incl. null), no duplicate members; also through Evidence.MarshalJSON - on one Evidence: encode, edit the attached claims in place, encode (must show the edit), edit back, encode (must equal the first). distinct_nontrivial = distinct (profile, route, optional-subset, nonce size, component count, text-class) signatures")
 	if err := extprof.Register(extprof.ExtP2Name); err != nil {
 		c.Violation("harness/register", err.Error(), nil)
 		return
@@ -1146,7 +1146,7 @@ func strp(p *string) string {
 // encoded again (byte-identical). The emitted map must contain the profile
 // claim and the extension claims (independent reader / generic JSON parse).
 func layoutExtRoundTrips(c *mon.Ctx, g *model.Gen, prop, format string, n int) {
-	if err := extprof.Register(extprof.ExtNestedName, extprof.MixinName); err != nil {
+	if err := extprof.Register(extprof.ExtNestedName, extprof.MixinName, extprof.ExtWideName); err != nil {
 		c.Violation("harness/register", err.Error(), nil)
 		return
 	}
@@ -1167,6 +1167,10 @@ func layoutExtRoundTrips(c *mon.Ctx, g *model.Gen, prop, format string, n int) {
 			}
 		case *extprof.MixinClaims:
 			ps = []*string{t.Mixin}
+		case *extprof.ExtWideClaims:
+			for _, w := range t.Wide() {
+				ps = append(ps, *w)
+			}
 		}
 		var out []string
 		for _, p := range ps {
@@ -1179,6 +1183,9 @@ func layoutExtRoundTrips(c *mon.Ctx, g *model.Gen, prop, format string, n int) {
 		layout, name := "nested-unexported-base", extprof.ExtNestedName
 		if i%2 == 1 {
 			layout, name = "mixin-first", extprof.MixinName
+		}
+		if i%4 == 2 {
+			layout, name = "wide", extprof.ExtWideName
 		}
 		a.Canon, a.Profile = name, model.SP(name)
 		sig := fmt.Sprintf("layout-ext|%s|%s|comps=%d", layout, format, len(a.Comps))
@@ -1208,6 +1215,14 @@ func layoutExtRoundTrips(c *mon.Ctx, g *model.Gen, prop, format string, n int) {
 			case *extprof.MixinClaims:
 				if g.R.Intn(4) != 0 {
 					t.Mixin = model.SP(g.NonEmptyText())
+				}
+			case *extprof.ExtWideClaims:
+				// 10 .. 20 of the twenty extension claims: with profile 2's 7 .. 10 own
+				// claims the merged map has 17 .. 30 entries (i.e. around 23 / 24)
+				ws := t.Wide()
+				nw := 10 + (i/4)%11
+				for _, wi := range g.R.Perm(len(ws))[:nw] {
+					*ws[wi] = model.SP(g.NonEmptyText())
 				}
 			default:
 				c.Violation(prop+"/layout-ext/other-implementation/"+layout, fmt.Sprintf("NewClaims(%q) returned %T", name, x), nil)
@@ -1291,4 +1306,5 @@ func layoutExtRoundTrips(c *mon.Ctx, g *model.Gen, prop, format string, n int) {
 	}
 	c.Floor("layout-extension-roundtrips:nested-unexported-base", 50)
 	c.Floor("layout-extension-roundtrips:mixin-first", 50)
+	c.Floor("layout-extension-roundtrips:wide", 50)
 }
